@@ -500,6 +500,136 @@ def run_camera(version: tuple[int, int]) -> dict[str, Any]:
     return {"method": "camera", "version": version, "calls": 2, "nontrivial": 2, "viol": viol}
 
 
+# ---------------------------------------------------------------------------------------------------
+# one long-lived client over consecutive sessions with different negotiated versions
+# ---------------------------------------------------------------------------------------------------
+RESESSION_VERSIONS = [(1, 0), (1, 10), (1, 0), (1, 4), (1, 5), (1, 2), (1, 3), (1, 2), (2, 0), (1, 0)]
+RESESSION_ENDERS = ("eof", "disconnect", "force")
+RESESSION_OPENERS = ("two-phase", "connect")
+
+
+def _probe_calls() -> list[tuple[str, dict[str, Any]]]:
+    """Every command method once with all optional arguments typical, once with none, plus the version-sensitive shapes."""
+    from aioesphomeapi import model as m
+
+    out: list[tuple[str, dict[str, Any]]] = []
+    for method, spec in specs().items():
+        req = {n: vals[0] for n, vals in spec.get("req", [])}
+        out.append((method, {"key": 5, **req, **{a.name: a.typical for a in spec["opt"]}}))
+        out.append((method, {"key": 5, **req}))
+    out += [("cover_command", {"key": 5, "position": 1.0}), ("cover_command", {"key": 5, "position": 0.0}), ("cover_command", {"key": 5, "stop": True}),
+            ("climate_command", {"key": 5, "preset": m.ClimatePreset.AWAY}), ("climate_command", {"key": 5, "preset": m.ClimatePreset.HOME})]
+    svc = m.UserService(name="s", key=7, args=[m.UserServiceArg(name="x", type=m.UserServiceArgType.INT),
+                                                m.UserServiceArg(name="y", type=m.UserServiceArgType.STRING)])
+    out.append(("execute_service", {"service": svc, "data": {"x": 5, "y": "z"}}))
+    return out
+
+
+def run_resessions(args: tuple[str, str]) -> dict[str, Any]:
+    """What a command puts on the wire depends on the version negotiated in the *current* session only: one client object goes through
+    consecutive sessions (ended by the device, by disconnect(), by a forced disconnect; reopened through connect() or through the
+    two-phase API a reconnect manager uses) and in each of them writes exactly what a fresh client writes at that version."""
+    ender, opener = args
+    env.load()
+    pb = env.pb()
+    ids = env.proto_ids()
+    viol: list[tuple[str, str, Any]] = []
+    calls = 0
+    probes = _probe_calls()
+    fresh: dict[tuple[int, int], list[Any]] = {}
+
+    def run_probes(client: Any, sock: Any) -> list[Any]:
+        out = []
+        for method, kwargs in probes:
+            mark = len(sock.sent)
+            try:
+                getattr(client, method)(**kwargs)
+            except Exception as e:  # noqa: BLE001
+                out.append((method, f"raised {type(e).__name__}: {e}"))
+                continue
+            data = b"".join(d for _, d in sock.sent[mark:])
+            try:
+                frames = wire.decode_strict(data)
+            except Exception as e:  # noqa: BLE001
+                out.append((method, f"undecodable: {type(e).__name__}"))
+                continue
+            out.append((method, [(ids.get(t, str(t)), bytes(pl)) for t, pl in frames]))
+        return out
+
+    for v in sorted(set(RESESSION_VERSIONS)):
+        s = Session(v)
+        try:
+            fresh[v] = run_probes(s.w.client, s.sock)
+        finally:
+            s.close()
+    w = ConnWorld(client=True, login=True)
+    try:
+        async def on_stop(expected: bool) -> None:
+            return None
+
+        for i, v in enumerate(RESESSION_VERSIONS):
+            if opener == "two-phase":
+                w.spawn(f"start{i}", lambda: w.client.start_connection(on_stop=on_stop))
+                w.drain()
+                w.io_connect(w.sock, 0)
+                w.drain()
+                w.spawn(f"finish{i}", lambda: w.client.finish_connection(login=True))
+                w.drain()
+                last = f"finish{i}"
+            else:
+                w.spawn(f"connect{i}", lambda: w.client.connect(on_stop=on_stop, login=True))
+                w.drain()
+                w.io_connect(w.sock, 0)
+                w.drain()
+                last = f"connect{i}"
+            w.io_chunk(w.sock, w.dframe(w.hello_resp(major=v[0], minor=v[1])) + w.dframe(w.connect_resp()))
+            w.drain()
+            if w.outcome(last) != "ok":
+                raise HarnessError(f"session {i} at {v} was not established: {w.results.get(last)}")
+            got = run_probes(w.client, w.sock)
+            calls += len(got)
+            for (method, a), (_m, b) in zip(got, fresh[v]):
+                if a != b:
+                    def show(x: Any) -> str:
+                        if isinstance(x, str):
+                            return x
+                        parts = []
+                        for name, pl in x:
+                            msg = getattr(pb, name)()
+                            msg.ParseFromString(pl)
+                            parts.append(f"{name}({str(msg).strip().replace(chr(10), ', ')[:160]})")
+                        return "[" + "; ".join(parts) + "]"
+                    prev = RESESSION_VERSIONS[i - 1] if i else None
+                    viol.append((f"resession:{method}", f"{method} in session {i + 1} of one client (API {v[0]}.{v[1]}, previous session "
+                                 f"{prev}, ended by {ender}, reopened with {opener}) wrote {show(a)}; a fresh client at that version writes {show(b)}",
+                                 {"resession": [ender, opener]}))
+            sock = w.sock
+            if ender == "eof":
+                w.io_eof(sock)
+                w.drain()
+            elif ender == "disconnect":
+                w.spawn(f"disc{i}", lambda: w.client.disconnect())
+                w.drain()
+                if not sock.closed:
+                    w.io_chunk(sock, w.dframe(pb.DisconnectResponse()))
+                    w.drain()
+            else:
+                w.spawn(f"disc{i}", lambda: w.client.disconnect(force=True))
+                w.drain()
+            w.drain()
+            if not sock.closed:
+                raise HarnessError(f"session {i} did not end ({ender})")
+    finally:
+        w.close()
+    seen: set[str] = set()
+    uniq = []
+    for k, c, d in viol:
+        if k not in seen:
+            seen.add(k)
+            uniq.append((k, c, d))
+    return {"method": f"resessions({ender},{opener})", "version": (0, 0), "calls": calls, "nontrivial": calls, "viol": uniq}
+
+
 def _job(j: tuple[Any, ...]) -> dict[str, Any]:
     if j[0] == "svc":
         return run_services(*j[1:])
@@ -509,6 +639,8 @@ def _job(j: tuple[Any, ...]) -> dict[str, Any]:
         return run_ms_sweep(j[1])
     if j[0] == "bp":
         return run_backpressure(j[1])
+    if j[0] == "resess":
+        return run_resessions((j[1], j[2]))
     return run_method(j[1:])
 
 
@@ -574,6 +706,9 @@ def run(tier: str, seed: int) -> Result:
     jobs.append(("ms", (1, 10)))
     jobs.append(("bp", False))
     jobs.append(("bp", True))
+    for en in RESESSION_ENDERS:
+        for op in RESESSION_OPENERS:
+            jobs.append(("resess", en, op))
     jobs.sort(key=lambda j: 0 if (j[0] == "m" and j[1] == "light_command" and j[3] == "full") else 1)
     ctx = mp.get_context("fork")
     with ctx.Pool(min(16, os.cpu_count() or 1)) as pool:
